@@ -318,6 +318,13 @@ func requestRoots(w *core.World) []*core.FuncInfo {
 	return roots
 }
 
+// unsafeStdTypes: standard-library types whose documentation says an instance must not be used by several goroutines
+// at once (every method counts as a write of the instance).
+var unsafeStdTypes = map[string]bool{
+	"math/rand.Rand": true, "math/rand/v2.Rand": true, "bytes.Buffer": true, "strings.Builder": true,
+	"bufio.Reader": true, "bufio.Writer": true, "bufio.Scanner": true, "container/list.List": true, "container/ring.Ring": true,
+}
+
 // c20Globals: package-level variables written on request paths.
 func c20Globals(r *core.Run) {
 	w := r.W
@@ -363,6 +370,16 @@ func c20Globals(r *core.Run) {
 			case *ast.CallExpr:
 				if id, ok := x.Fun.(*ast.Ident); ok && id.Name == "delete" && len(x.Args) == 2 {
 					note(x.Args[0], n)
+				}
+				// a method of a standard type that is documented as not safe for concurrent use, called on a package
+				// variable (a shared *rand.Rand, bytes.Buffer, strings.Builder, bufio reader / writer, list): every
+				// such call changes the object's state
+				if callee := core.Callee(info, x); callee != nil {
+					if rn := core.RecvNamed(callee); rn != nil && rn.Obj().Pkg() != nil && unsafeStdTypes[rn.Obj().Pkg().Path()+"."+rn.Obj().Name()] {
+						if sel, ok := ast.Unparen(x.Fun).(*ast.SelectorExpr); ok {
+							note(sel.X, n)
+						}
+					}
 				}
 			}
 			return true
@@ -640,120 +657,123 @@ func c20Release(r *core.Run) {
 			n++
 			r.Sites++
 			r.Fn(f)
-			// an unexported helper with a single calling function is part of that function: the obligation (and a
-			// recorded finding) stays with the same construct when a body is split into helpers or merged back
-			key := core.ShortKey(soleCallerRoot(w, f).Obj) + " releases the " + a.kind.what
-			if a.v == nil {
-				r.Bad("C20.release", key, w.Pos(a.call.Pos()), "the acquired "+a.kind.what+" is discarded (assigned to _): it can never be released")
-				continue
-			}
-			// escapes: returned, stored into a field/map/slice, sent on a channel
-			escapes := false
-			ast.Inspect(f.Decl.Body, func(x ast.Node) bool {
-				switch s := x.(type) {
-				case *ast.ReturnStmt:
-					for _, e := range s.Results {
-						if mentions(info, e, a.v) {
-							if c, ok := ast.Unparen(e).(*ast.CallExpr); !ok || isObj(info, c.Fun, a.v) {
-								escapes = true
-							}
-							if isObj(info, e, a.v) {
-								escapes = true
-							}
-						}
-					}
-				case *ast.AssignStmt:
-					for i, l := range s.Lhs {
-						if _, isIdent := ast.Unparen(l).(*ast.Ident); !isIdent && i < len(s.Rhs) && isObj(info, s.Rhs[i], a.v) {
-							escapes = true
-						}
-					}
-				case *ast.KeyValueExpr:
-					if isObj(info, s.Value, a.v) {
-						escapes = true
-					}
-				case *ast.SendStmt:
-					if isObj(info, s.Value, a.v) {
-						escapes = true
-					}
+			// an unexported helper is part of the function(s) it is called from: the obligation (and a recorded
+			// finding) stays with the same construct(s) when a body is split into helpers, merged back, or shared by
+			// two entry points
+			for _, root := range callerRoots(w, f) {
+				key := core.ShortKey(root.Obj) + " releases the " + a.kind.what
+				if a.v == nil {
+					r.Bad("C20.release", key, w.Pos(a.call.Pos()), "the acquired "+a.kind.what+" is discarded (assigned to _): it can never be released")
+					continue
 				}
-				return true
-			})
-			if escapes {
-				r.OK("C20.release", key, w.Pos(a.call.Pos()), "ownership leaves the function (returned or stored)")
-				continue
-			}
-			av := a
-			sp := &flow.Spec{W: w, Depth: 0, Classify: func(pkg *packages.Package, call *ast.CallExpr, callee *types.Func) []flow.Tag {
-				if call == av.call {
-					return []flow.Tag{"acq"}
-				}
-				if callee != nil && (callee.Name() == av.kind.release || av.kind.release == "Close" && callee.Name() == "CloseForce") && recvObj(pkg.TypesInfo, call) == av.v {
-					return []flow.Tag{"rel", "-ok:acq"}
-				}
-				// ownership handed to a callee that closes that parameter
-				if callee != nil {
-					for i, arg := range call.Args {
-						if isObj(pkg.TypesInfo, arg, av.v) && closerOf(callee)[i] {
-							return []flow.Tag{"rel", "-ok:acq"}
-						}
-					}
-				}
-				return nil
-			}}
-			res := sp.Analyze(f)
-			leak := ""
-			for _, ex := range res.Exits {
-				if ex.St.Maybe("ok:acq") && !ex.St.Has("defer:rel") {
-					leak = w.Pos(ex.Pos)
-				}
-			}
-			// deferred closures calling Close on the variable
-			if leak != "" {
+				// escapes: returned, stored into a field/map/slice, sent on a channel
+				escapes := false
 				ast.Inspect(f.Decl.Body, func(x ast.Node) bool {
-					ds, ok := x.(*ast.DeferStmt)
-					if !ok {
-						return true
-					}
-					if lit, ok := ast.Unparen(ds.Call.Fun).(*ast.FuncLit); ok {
-						mentionsRel := false
-						ast.Inspect(lit.Body, func(m ast.Node) bool {
-							if c, ok := m.(*ast.CallExpr); ok {
-								if cf := core.Callee(info, c); cf != nil && cf.Name() == av.kind.release && recvObj(info, c) == av.v {
-									mentionsRel = true
+					switch s := x.(type) {
+					case *ast.ReturnStmt:
+						for _, e := range s.Results {
+							if mentions(info, e, a.v) {
+								if c, ok := ast.Unparen(e).(*ast.CallExpr); !ok || isObj(info, c.Fun, a.v) {
+									escapes = true
+								}
+								if isObj(info, e, a.v) {
+									escapes = true
 								}
 							}
-							return true
-						})
-						if !mentionsRel {
-							return true
 						}
-						// a deferred closure that releases under a nil test (`if rows != nil { rows.Close() }`): every
-						// exit of the closure has released, or knows the variable to be nil
-						lres := sp.AnalyzeLit(f.Pkg, lit)
-						allPaths := len(lres.Exits) > 0
-						var someUse *ast.Ident
-						ast.Inspect(lit.Body, func(m ast.Node) bool {
-							if id, ok := m.(*ast.Ident); ok && someUse == nil && info.Uses[id] == av.v {
-								someUse = id
-							}
-							return true
-						})
-						for _, lex := range lres.Exits {
-							if !lex.St.Has("rel") && !(someUse != nil && lex.St.ExprNil(info, someUse) == 1) {
-								allPaths = false
+					case *ast.AssignStmt:
+						for i, l := range s.Lhs {
+							if _, isIdent := ast.Unparen(l).(*ast.Ident); !isIdent && i < len(s.Rhs) && isObj(info, s.Rhs[i], a.v) {
+								escapes = true
 							}
 						}
-						if allPaths {
-							leak = ""
-						} else {
-							leak += " (the deferred closure does not release it on each of its own paths)"
+					case *ast.KeyValueExpr:
+						if isObj(info, s.Value, a.v) {
+							escapes = true
+						}
+					case *ast.SendStmt:
+						if isObj(info, s.Value, a.v) {
+							escapes = true
 						}
 					}
 					return true
 				})
+				if escapes {
+					r.OK("C20.release", key, w.Pos(a.call.Pos()), "ownership leaves the function (returned or stored)")
+					continue
+				}
+				av := a
+				sp := &flow.Spec{W: w, Depth: 0, Classify: func(pkg *packages.Package, call *ast.CallExpr, callee *types.Func) []flow.Tag {
+					if call == av.call {
+						return []flow.Tag{"acq"}
+					}
+					if callee != nil && (callee.Name() == av.kind.release || av.kind.release == "Close" && callee.Name() == "CloseForce") && recvObj(pkg.TypesInfo, call) == av.v {
+						return []flow.Tag{"rel", "-ok:acq"}
+					}
+					// ownership handed to a callee that closes that parameter
+					if callee != nil {
+						for i, arg := range call.Args {
+							if isObj(pkg.TypesInfo, arg, av.v) && closerOf(callee)[i] {
+								return []flow.Tag{"rel", "-ok:acq"}
+							}
+						}
+					}
+					return nil
+				}}
+				res := sp.Analyze(f)
+				leak := ""
+				for _, ex := range res.Exits {
+					if ex.St.Maybe("ok:acq") && !ex.St.Has("defer:rel") {
+						leak = w.Pos(ex.Pos)
+					}
+				}
+				// deferred closures calling Close on the variable
+				if leak != "" {
+					ast.Inspect(f.Decl.Body, func(x ast.Node) bool {
+						ds, ok := x.(*ast.DeferStmt)
+						if !ok {
+							return true
+						}
+						if lit, ok := ast.Unparen(ds.Call.Fun).(*ast.FuncLit); ok {
+							mentionsRel := false
+							ast.Inspect(lit.Body, func(m ast.Node) bool {
+								if c, ok := m.(*ast.CallExpr); ok {
+									if cf := core.Callee(info, c); cf != nil && cf.Name() == av.kind.release && recvObj(info, c) == av.v {
+										mentionsRel = true
+									}
+								}
+								return true
+							})
+							if !mentionsRel {
+								return true
+							}
+							// a deferred closure that releases under a nil test (`if rows != nil { rows.Close() }`): every
+							// exit of the closure has released, or knows the variable to be nil
+							lres := sp.AnalyzeLit(f.Pkg, lit)
+							allPaths := len(lres.Exits) > 0
+							var someUse *ast.Ident
+							ast.Inspect(lit.Body, func(m ast.Node) bool {
+								if id, ok := m.(*ast.Ident); ok && someUse == nil && info.Uses[id] == av.v {
+									someUse = id
+								}
+								return true
+							})
+							for _, lex := range lres.Exits {
+								if !lex.St.Has("rel") && !(someUse != nil && lex.St.ExprNil(info, someUse) == 1) {
+									allPaths = false
+								}
+							}
+							if allPaths {
+								leak = ""
+							} else {
+								leak += " (the deferred closure does not release it on each of its own paths)"
+							}
+						}
+						return true
+					})
+				}
+				r.Check(leak == "", "C20.release", key, w.Pos(a.call.Pos()), "released on every path after the acquisition succeeded", "the "+a.kind.what+" acquired here is not released on the path to the return at "+leak+": one pooled connection / statement / cursor is lost per call")
 			}
-			r.Check(leak == "", "C20.release", key, w.Pos(a.call.Pos()), "released on every path after the acquisition succeeded", "the "+a.kind.what+" acquired here is not released on the path to the return at "+leak+": one pooled connection / statement / cursor is lost per call")
 		}
 	}
 	if n == 0 {
@@ -925,6 +945,44 @@ func initRoots(w *core.World) []*core.FuncInfo {
 			out = append(out, f)
 		}
 	}
+	return out
+}
+
+// callerRoots: the functions an obligation found in f is attributed to: f itself when it is exported, a goroutine
+// entry, used as a value, or without a visible caller; otherwise the roots of its calling functions of the package
+// (up to three levels). With one caller per level this is the sole calling function.
+func callerRoots(w *core.World, f *core.FuncInfo) []*core.FuncInfo {
+	var out []*core.FuncInfo
+	seen := map[*core.FuncInfo]bool{}
+	var walk func(g *core.FuncInfo, d int)
+	walk = func(g *core.FuncInfo, d int) {
+		if seen[g] {
+			return
+		}
+		seen[g] = true
+		stop := g.Obj.Exported() || d == 0 || cs0HasValueUse(w, g)
+		var callers []*core.FuncInfo
+		if !stop {
+			for _, cs := range w.Callers(g.Obj) {
+				if w.IsTestFile(cs.Call.Pos()) || cs.Caller == nil || cs.Caller == g {
+					continue
+				}
+				if cs.InGo || cs.Caller.Pkg != g.Pkg {
+					stop = true
+				}
+				callers = append(callers, cs.Caller)
+			}
+		}
+		if stop || len(callers) == 0 {
+			out = append(out, g)
+			return
+		}
+		for _, c := range dedupFns(callers) {
+			walk(c, d-1)
+		}
+	}
+	walk(f, 3)
+	sort.Slice(out, func(i, j int) bool { return core.ShortKey(out[i].Obj) < core.ShortKey(out[j].Obj) })
 	return out
 }
 
